@@ -66,6 +66,10 @@ pub struct Ctx<'a> {
     pub leaves: Vec<(Vec<f64>, f64, f64)>, // (x, joint, tolerance on x) of every leaf in visiting order
     pub max_joint_err: f64,
     pub leapfrogs: usize,
+    /// every quantity of this case is a small dyadic rational, so the library's arithmetic and the
+    /// reference's are both exact: decisions AT a threshold (a U-turn product of exactly 0, an energy
+    /// exactly at the slice level) are decidable and are judged instead of being marked ambiguous
+    pub exact: bool,
 }
 
 fn maxabs(v: &[f64]) -> f64 {
@@ -89,7 +93,7 @@ impl<'a> Ctx<'a> {
         // a step that is below the resolution of the position in the backend's float type cannot
         // move the library's position at all (x + eps p == x): its trajectory then has nothing to do
         // with the f64 one. Not decidable against this reference: ambiguous.
-        if self.ambiguous.is_none() && self.eps.abs() * (maxabs(&a.p) + maxabs(&a.g) * self.eps.abs()) < 0.5 * self.eps_b * maxabs(&a.x) {
+        if !self.exact && self.ambiguous.is_none() && self.eps.abs() * (maxabs(&a.p) + maxabs(&a.g) * self.eps.abs()) < 0.5 * self.eps_b * maxabs(&a.x) {
             self.ambiguous = Some(format!("step size {:e} is below the resolution of the position in the backend's float type", self.eps));
         }
         let step = |x: &[f64], p: &[f64], g: &[f64], t: &GTarget| -> (Vec<f64>, Vec<f64>, Vec<f64>) {
@@ -140,7 +144,7 @@ impl<'a> Ctx<'a> {
             // NaN / inf dot products: the comparison `>= 0` is false for NaN in the library as well
             return d1 >= 0.0 && d2 >= 0.0;
         }
-        if (d1.abs() <= m1 || d2.abs() <= m2) && self.ambiguous.is_none() {
+        if !self.exact && (d1.abs() <= m1 || d2.abs() <= m2) && self.ambiguous.is_none() {
             // a sign inside its margin only matters if the other test does not already decide "stop"
             let other_decides = (d1 < -m1) || (d2 < -m2);
             if !other_decides {
@@ -155,7 +159,7 @@ impl<'a> Ctx<'a> {
             let q = self.leap(from, v);
             let (joint, tol) = self.joint(&q);
             self.max_joint_err = self.max_joint_err.max(tol);
-            if self.ambiguous.is_none() {
+            if self.ambiguous.is_none() && !self.exact {
                 if (self.logu - joint).abs() <= tol {
                     self.ambiguous = Some(format!("slice test: joint {joint} within {tol:e} of the slice level {}", self.logu));
                 } else if (self.logu - 1000.0 - joint).abs() <= tol {
@@ -225,7 +229,7 @@ pub struct TransitionOut {
 /// (log scale), step size `eps`, consuming the fed draws.
 pub fn nuts_transition(t: &GTarget, x: &[f64], p0: &[f64], logu: f64, eps: f64, eps_b: f64, feed: Feed, max_depth: usize) -> TransitionOut {
     let joint0 = t.logp(x) - 0.5 * p0.iter().map(|v| v * v).sum::<f64>();
-    let mut c = Ctx { t, eps, eps_b, logu, joint0, feed, ambiguous: None, structure_error: None, leaves: vec![], max_joint_err: 0.0, leapfrogs: 0 };
+    let mut c = Ctx { t, eps, eps_b, logu, joint0, feed, ambiguous: None, structure_error: None, leaves: vec![], max_joint_err: 0.0, leapfrogs: 0, exact: false };
     let start = c.start(x, p0);
     let (mut minus, mut plus) = (start.clone(), start.clone());
     let mut cur = start.clone();
